@@ -142,6 +142,40 @@ def _subclass():
     return _SUB[0]
 
 
+# Other alphabets for the same inputs: the letters of a check's small alphabet stand for character CLASSES; a substitution
+# re-runs an input with other members of the classes (the specifications judge code points, not letters).  Keys are the
+# letters the checks enumerate (a/x: a base character, b/y: "the other one").
+SUBSTS = [
+    {97: 101, 98: 0x301, 120: 101, 121: 0x301},          # e + COMBINING ACUTE: a zero-width mark wherever a 'b' / 'y' stood
+    {97: 0x2764, 98: 0x200D, 120: 0x2764, 121: 0xFE0F},  # heart, ZERO WIDTH JOINER / VARIATION SELECTOR-16
+    {98: 0xE0100, 121: 0x1D167},                         # zero-width characters outside the BMP
+    {97: 0x3000, 98: 0xA0, 120: 0x3000, 121: 0x202F},    # IDEOGRAPHIC SPACE (double-width), NO-BREAK SPACEs: not isprintable()
+    {98: 0x1BAA, 121: 0x302E},                           # spacing combining marks: combining class != 0 but 1 / 2 columns wide
+    {97: 0x212B, 98: 0x958, 120: 0xFA10, 121: 0x2126},   # characters that are not stable under NFC normalisation
+    {97: 0x8FD9, 98: 0xFFFD, 120: 0x1FC6, 121: 0x5FEB},  # UTF-8 forms with the byte 0xBF before the last byte
+    {98: 0x200B, 121: 0xFEFF},                           # ZERO WIDTH SPACE, BOM
+]
+
+
+def subst(obj, mapping):
+    """the input with the texts of all its runs ([text, 8 attributes] pairs) and of its "s" / "t" code-point lists
+    re-spelled through `mapping`; everything else (bounds, counts, attributes) is left alone"""
+    def is_ints(x):
+        return isinstance(x, list) and all(isinstance(c, int) and not isinstance(c, bool) for c in x)
+
+    def walk(x, key=None):
+        if isinstance(x, dict):
+            return {k: walk(v, k) for k, v in x.items()}
+        if isinstance(x, list):
+            if len(x) == 2 and is_ints(x[0]) and is_ints(x[1]) and len(x[1]) == 8:
+                return [[mapping.get(c, c) for c in x[0]], list(x[1])]
+            if key in ("s", "t", "raw") and is_ints(x) and x:
+                return [mapping.get(c, c) for c in x]
+            return [walk(v, key) for v in x]
+        return x
+    return walk(obj)
+
+
 SEED = 0     # set per input by PureCheck._execute: makes the prologues reproducible
 
 
